@@ -57,6 +57,52 @@ def header_ctor(ck, agg):
     return n
 
 
+def frame_ctor(ck, agg):
+    """R11.10: "a frame is its header followed by the unmodified message" from the moment it is built: RF24NetworkFrame(header, message)
+    packs into header.pack() + message - all five header fields are the given header's (by reference or by copy), the message the given one;
+    without arguments: a default header and an empty message"""
+    P = ck.prog
+    S = net.structs(P)
+    fc = S["RF24NetworkFrame"]
+    init = fc.lookup("__init__")[1]
+    fp = P.method(fc, "pack")
+    n = 0
+    for given in (True, False):
+        st = State()
+        fr = st.alloc("obj", cls=fc, label="newframe")
+        args = []
+        if given:
+            hdr = net.sym_header(st, P, "hdr")
+            net.set_rng(st, ("len", "msg"), (0, None))
+            msg = Bytes([(("param", "msg"), Sym(("len", "msg"), "int", rng=(0, None)))], "bytes", origin=("param", "msg"))
+            args = [hdr, msg]
+        outs, it = net.run(ck, init, fc, fr, args, st)
+        for out in outs:
+            if out.kind != "return":
+                agg.add("R11.10", init, "building a frame from a header and a bytes message does not raise", False, "raises %s" % out.value.exc)
+                continue
+            s2 = out.state.fork()
+            s2.trace = []
+            for o2 in net.run(ck, fp, fc, fr, [], s2)[0]:
+                n += 1
+                v = o2.value
+                parts = [p_[0] for p_ in v.parts] if o2.kind == "return" and isinstance(v, Bytes) else []
+                pk = parts[0] if parts and parts[0][0] == "pack" else None
+                if pk is None or len(pk[2]) != 5:
+                    agg.add("R11.10", init, "a new frame packs into header + message", False, "RF24NetworkFrame(%s).pack() gives %r" % ("header, message" if given else "", v))
+                    continue
+                if given:
+                    bad = [fl for i_, fl in enumerate(net.HDR_FIELDS) if net.base_deps(pk[2][i_]) != {"hdr." + fl}]
+                    agg.add("R11.10", init, "a frame built from a header carries all five fields of that header", not bad,
+                            "RF24NetworkFrame(header, message).pack(): field(s) %s are not the given header's (%r)" % (", ".join(bad), [pk[2][net.HDR_FIELDS.index(b)] for b in bad]))
+                    okm = len(parts) == 2 and (parts[1] == ("param", "msg") or (parts[1][0] == "slice" and parts[1][1] == ("param", "msg") and parts[1][2] == 0 and parts[1][3] is None))
+                    agg.add("R11.10", init, "a frame built from a message carries that message unmodified", okm, "RF24NetworkFrame(header, message).pack(): message part %r" % (parts[1:],))
+                else:
+                    ln = const_of(norm(v.length()))
+                    agg.add("R11.10", init, "a frame built without arguments is a bare 8-byte header", ln == T.HEADER_SIZE, "RF24NetworkFrame().pack() has %r bytes" % (ln,))
+    return n
+
+
 def header_rules(ck, agg):
     P = ck.prog
     S = net.structs(P)
@@ -195,6 +241,21 @@ def constants(ck, agg):
     return n
 
 
+def went_on_after_loss(trace):
+    """indices k of payload loads that happen although the previous load (and its timed re-sends) was never found delivered on the path"""
+    allrs = [e for e in trace if e.kind == "radio-send"]
+    sends = [e for e in allrs if e.data[0] == "send"]
+    bad = []
+    for k_ in range(1, len(sends)):
+        idx = {allrs.index(e) + 1 for e in allrs if sends[k_ - 1].seq <= e.seq < sends[k_].seq}
+        okd = any(e.kind == "cond" and e.data[0] is True and sends[k_ - 1].seq < e.seq < sends[k_].seq and not isinstance(e.data[1], tuple) and
+                  isinstance(norm(e.data[1]), Sym) and isinstance(norm(e.data[1]).name, tuple) and norm(e.data[1]).name[0] == "sendresult" and norm(e.data[1]).name[1] in idx
+                  for e in trace)
+        if not okd:
+            bad.append(k_)
+    return bad
+
+
 def fragment_loop(ck, agg, rule="R11.6"):
     """R11.6: what _write_to_pipe emits for a long message"""
     P = ck.prog
@@ -204,7 +265,12 @@ def fragment_loop(ck, agg, rule="R11.6"):
     M = T.CONSTANTS["MAX_FRAG_SIZE"]
     # retry histories that end in the same abstract state (same loop variables, same radio state) are explored once;
     # every merged history has issued the same RF24.send() calls, so the recorded frames are representative
-    nn.model.loop_key = net.radio_loop_key(nn)
+    base_key = net.radio_loop_key(nn)
+
+    def frag_key(it, st, fr):
+        # ... but never a history that went on after an undelivered fragment with one that did not (the abort rule below reads that)
+        return (base_key(it, st, fr), tuple(went_on_after_loss(st.trace)))
+    nn.model.loop_key = frag_key
     n = 0
     for mlen in (0, 1, 23, 24, 25, 47, 48, 49, 72, 73, 144):
         for mtype in (0, 65, 127):
@@ -212,7 +278,7 @@ def fragment_loop(ck, agg, rule="R11.6"):
             st, node = nn.fresh(frame_pins={"message_type": mtype}, msg_len=mlen, addr=0o1)
             fb = st.heap[node.ident].fields["frame_buf"]
             hdr0 = st.heap[fb.ident].fields["header"]
-            outs = nn.run(f, node, [Const(0o2), Const(5), Const(False)], st, limits=Limits(max_paths=60000, loop_unroll=2, depth=14))
+            outs = nn.run(f, node, [Const(0o2), Const(5), Const(False)], st, limits=Limits(max_paths=60000, loop_unroll=7, depth=14))
             total = -(-mlen // M)
             label = "%d-byte message of type %d" % (mlen, mtype)
             full = 0
@@ -244,6 +310,13 @@ def fragment_loop(ck, agg, rule="R11.6"):
                         agg.add(rule, f, "a message that fits one frame is sent whole", okb, "%s: the single frame is %r" % (label, [t_ for t_, _l in parts]))
                     continue
                 agg.add(rule, f, "never more than ceil(n/24) frames", len(sends) <= total, "%s: %d frames" % (label, len(sends)))
+                # a fragment that could not be delivered ends the message: the next fragment is loaded only after the previous one was
+                # reported delivered (by send() or by one of its timed re-sends) - otherwise the receiver gets FIRST .. LAST with a hole
+                for k_ in went_on_after_loss(out.trace):
+                    agg.add(rule, f, "the next fragment is sent only after the previous one was delivered (an undelivered fragment aborts the message)", False,
+                            "%s: fragment %d is loaded on a path on which fragment %d was never reported delivered - the sender goes on after a lost fragment, the receiver splices what arrives" % (label, k_ + 1, k_), sends[k_].node)
+                if len(sends) > 1:
+                    agg.add(rule, f, "the next fragment is sent only after the previous one was delivered (an undelivered fragment aborts the message)", True, "")
                 pos = 0
                 for k, ev in enumerate(sends):
                     buf = ev.data[1]
@@ -293,10 +366,15 @@ def run(ck):
         "shared frame id, contiguous 24-byte partition, <= 32 bytes on air, header type restored on every exit including aborts.")
     ck.not_decided = ["running a reference (TMRh20) reassembler over the frames; the byte-level little-endian claim on big-endian hosts (none supported)"]
     agg = Agg(ck)
+    n_fc = frame_ctor(ck, agg)
     n1 = header_rules(ck, agg)
     n2 = constants(ck, agg)
     n3 = fragment_loop(ck, agg)
+    # "all message lengths 0..144": the senders' length gate admits exactly the lengths that can be sent, the maximum included (R05.2)
+    from . import c05
+    n_v = c05.validate(ck, agg, net.NetNode(ck, "rf24_network", "RF24Network"))
     agg.flush()
     ck.floor("R11.1", "header/frame codec paths", n1, 8)
+    ck.floor("R11.10", "frame constructor paths", n_fc, 2)
     ck.floor("R11.7", "protocol constants", n2, 25)
     ck.floor("R11.6", "fragment loop scenarios", n3, 24)
